@@ -256,6 +256,7 @@ package logqlmetric
 
 //@ func buildAggregator
 //@   modifies nothing
+//@   ensures[operator-to-aggregator] ret1 == nil ==> (old(expr.Op) == logql.VectorOpSum ==> typeis[*SumAggregator](ret0())) && (old(expr.Op) == logql.VectorOpAvg ==> typeis[*AvgAggregator](ret0())) && (old(expr.Op) == logql.VectorOpCount ==> typeis[*CountAggregator](ret0())) && (old(expr.Op) == logql.VectorOpMax ==> typeis[*MaxAggregator](ret0())) && (old(expr.Op) == logql.VectorOpMin ==> typeis[*MinAggregator](ret0())) && (old(expr.Op) == logql.VectorOpStddev ==> typeis[*StddevAggregator](ret0())) && (old(expr.Op) == logql.VectorOpStdvar ==> typeis[*StdvarAggregator](ret0()))
 //@   ensures[supported]   (expr.Op == logql.VectorOpSum || expr.Op == logql.VectorOpAvg || expr.Op == logql.VectorOpCount || expr.Op == logql.VectorOpMax || expr.Op == logql.VectorOpMin || expr.Op == logql.VectorOpStddev || expr.Op == logql.VectorOpStdvar) == (ret1 == nil)
 
 //@ iface AggregatedLabels.By
@@ -278,6 +279,7 @@ package logqlmetric
 //@   ensures[heap-iterator]      ret1 == nil && (old(expr.Op) == logql.VectorOpBottomk || old(expr.Op) == logql.VectorOpSort || old(expr.Op) == logql.VectorOpTopk || old(expr.Op) == logql.VectorOpSortDesc) ==> typeis[*vectorAggHeapIterator](ret0) && as[*vectorAggHeapIterator](ret0).iter == iter && same(as[*vectorAggHeapIterator](ret0).grouper, grouper) && same(as[*vectorAggHeapIterator](ret0).groupLabels, groupLabels)
 //@   ensures[smallest-first] ret1 == nil && (old(expr.Op) == logql.VectorOpBottomk || old(expr.Op) == logql.VectorOpSort) ==> as[*vectorAggHeapIterator](ret0).less(x, y) == x.Less(y) && as[*vectorAggHeapIterator](ret0).greater(x, y) == x.Greater(y)
 //@   ensures[largest-first]  ret1 == nil && (old(expr.Op) == logql.VectorOpTopk || old(expr.Op) == logql.VectorOpSortDesc) ==> as[*vectorAggHeapIterator](ret0).less(x, y) == x.Greater(y) && as[*vectorAggHeapIterator](ret0).greater(x, y) == x.Less(y)
+//@   ensures[heap-order-is-total-on-distinct-series] ret1 == nil && typeis[*vectorAggHeapIterator](ret0) ==> (!as[*vectorAggHeapIterator](ret0).less(x, y) && !as[*vectorAggHeapIterator](ret0).less(y, x) ==> same(x.Set, y.Set))
 //@   ensures[limit] ret1 == nil && typeis[*vectorAggHeapIterator](ret0) ==> as[*vectorAggHeapIterator](ret0).limit == ite(old(expr.Parameter) == nil, -1, old(*expr.Parameter))
 
 //@ func (*vectorAggIterator).Next
@@ -449,3 +451,95 @@ package logqlmetric
 //@   loop 0 body_ensures[enters-while-not-full] ps0_called ==> i.limit > 0 && ln_called && ln_r0 < i.limit && typeis[Sample](ps0_a1) && same(as[Sample](ps0_a1), s)
 //@   loop 0 body_ensures[replaces-only-when-it-beats-the-extreme] pp_called ==> i.limit > 0 && ln_called && ln_r0 >= i.limit && mn_called && ls_called && ls_r0 && same(ls_a0, s) && same(ls_a1, mn_r0) && ps1_called && typeis[Sample](ps1_a1) && same(as[Sample](ps1_a1), s)
 //@   loop 0 body_ensures[otherwise-dropped] i.limit > 0 && !ps0_called && !pp_called ==> ls_called && !ls_r0 && !ps1_called
+
+// ---- C11 / C09 / C18: streaming aggregators
+//
+// Each aggregator is a fold: its state after Apply(v) is step(state, v), its zero value is the
+// empty state (the vector path never calls Reset), and Result reads the state.
+
+//@ scope stream_aggregator.go
+
+//@ spec func maxStep(m float64, set bool, v float64) float64 { return ite(!set || v > m || isnan(v), v, m) }
+//@ spec func minStep(m float64, set bool, v float64) float64 { return ite(!set || v < m || isnan(v), v, m) }
+
+//@ func (*SumAggregator).Reset
+//@   modifies a.sum
+//@   ensures[empty] a.sum == 0
+//@ func (*SumAggregator).Apply
+//@   modifies a.sum
+//@   ensures[adds-the-value] same(a.sum, old(a.sum) + v)
+//@ func (*SumAggregator).Result
+//@   modifies nothing
+//@   ensures[reads-the-sum] same(ret0, a.sum)
+
+//@ func (*CountAggregator).Reset
+//@   modifies a.count
+//@   ensures[empty] a.count == 0
+//@ func (*CountAggregator).Apply
+//@   modifies a.count
+//@   ensures[counts-every-value] a.count == old(a.count) + 1
+//@ func (*CountAggregator).Result
+//@   modifies nothing
+//@   ensures[reads-the-count] same(ret0, float64(a.count))
+
+//@ func (*MaxAggregator).Reset
+//@   modifies a.max, a.set
+//@   ensures[empty] !a.set
+//@ func (*MaxAggregator).Apply
+//@   modifies a.max, a.set
+//@   ensures[first-value-or-the-larger-NaN-wins] a.set && same(a.max, maxStep(old(a.max), old(a.set), v))
+//@ func (*MaxAggregator).Result
+//@   modifies nothing
+//@   ensures[reads-the-maximum] same(ret0, a.max)
+
+//@ func (*MinAggregator).Reset
+//@   modifies a.min, a.set
+//@   ensures[empty] !a.set
+//@ func (*MinAggregator).Apply
+//@   modifies a.min, a.set
+//@   ensures[first-value-or-the-smaller-NaN-wins] a.set && same(a.min, minStep(old(a.min), old(a.set), v))
+//@ func (*MinAggregator).Result
+//@   modifies nothing
+//@   ensures[reads-the-minimum] same(ret0, a.min)
+
+//@ func (*AvgAggregator).Reset
+//@   modifies a.avg, a.count
+//@   ensures[empty] a.avg == 0 && a.count == 0
+//@ func (*AvgAggregator).Apply
+//@   modifies a.avg, a.count
+//@   ensures[cumulative-average] !isinf(old(a.avg)) ==> same(a.count, old(a.count) + 1) && same(a.avg, old(a.avg) + (v - old(a.avg)) / (old(a.count) + 1))
+//@ func (*AvgAggregator).Result
+//@   modifies nothing
+//@   ensures[reads-the-average] same(ret0, a.avg)
+
+//@ func (*StdvarAggregator).Reset
+//@   modifies a.m2, a.count, a.mean
+//@   ensures[empty] a.m2 == 0 && a.count == 0 && a.mean == 0
+//@ func (*StdvarAggregator).Apply
+//@   modifies a.m2, a.count, a.mean
+//@   ensures[welford-step] same(a.count, old(a.count) + 1) && same(a.mean, old(a.mean) + (v - old(a.mean)) / (old(a.count) + 1)) && same(a.m2, old(a.m2) + (v - old(a.mean)) * (v - a.mean))
+//@ func (*StdvarAggregator).Result
+//@   modifies nothing
+//@   ensures[variance] same(ret0, a.m2 / a.count)
+
+//@ func (*StddevAggregator).Reset
+//@   modifies a.variance.m2, a.variance.count, a.variance.mean
+//@   ensures[empty] a.variance.m2 == 0 && a.variance.count == 0 && a.variance.mean == 0
+//@ func (*StddevAggregator).Apply
+//@   modifies a.variance.m2, a.variance.count, a.variance.mean
+//@   ensures[welford-step] same(a.variance.count, old(a.variance.count) + 1) && same(a.variance.mean, old(a.variance.mean) + (v - old(a.variance.mean)) / (old(a.variance.count) + 1)) && same(a.variance.m2, old(a.variance.m2) + (v - old(a.variance.mean)) * (v - a.variance.mean))
+//@ func (*StddevAggregator).Result
+//@   modifies nothing
+//@   ensures[root-of-the-variance] same(ret0, math.Sqrt(a.variance.m2 / a.variance.count))
+
+// ---- C18: the aggregate of a group must not depend on the order its samples arrive in (they
+// arrive in hash-map order). One swap of two adjacent samples from an arbitrary state; values are
+// compared numerically (+0 and -0 are not told apart), NaN equals NaN.
+
+//@ ghost func anyF(i int) float64
+//@ ghost func anyB(i int) bool
+//@ spec func sameNumber(x float64, y float64) bool { return x == y || (isnan(x) && isnan(y)) }
+
+//@ lemma[C18.max-independent-of-sample-order] sameNumber(maxStep(maxStep(anyF(0), anyB(0), anyF(1)), true, anyF(2)), maxStep(maxStep(anyF(0), anyB(0), anyF(2)), true, anyF(1)))
+//@ lemma[C18.min-independent-of-sample-order] sameNumber(minStep(minStep(anyF(0), anyB(0), anyF(1)), true, anyF(2)), minStep(minStep(anyF(0), anyB(0), anyF(2)), true, anyF(1)))
+//@ lemma[C18.sum-independent-of-sample-order] sameNumber((anyF(0) + anyF(1)) + anyF(2), (anyF(0) + anyF(2)) + anyF(1))
